@@ -130,9 +130,9 @@ impl Check for C11 {
                             ctx.nontrivial_bytes(&b);
                             let ok = crate::capi::from_slice(Ty::Header, &b).is_ok();
                             outcomes.push((["protected", "unprotected", "alternating (protected first)", "alternating (unprotected first)"][pattern as usize].to_string(), ok));
-                            if ok || depth <= 4 {
+                            if ok || depth <= 3 {
                                 // within the modelled depth the full oracle applies
-                                if depth <= 4 {
+                                if depth <= 3 {
                                     encode_oracle(ctx, &v, "struct literal (chain)");
                                 }
                             }
